@@ -523,7 +523,7 @@ func (s *e20Suite) amountUpTo(bal sdkmath.Int) sdkmath.Int {
 var (
 	devAny    = []string{"err", "revert"}
 	devBal    = []string{"err", "revert", "bal+1", "bal-1", "balnil", "balbad"}
-	devCommit = []string{"err", "revert", "gas", "amt+1", "amt-1", "noop", "false", "falsemoved", "retempty", "retbad", "ret2", "approval", "approvalfirst", "notopics", "otherlog", "credit"}
+	devCommit = []string{"err", "revert", "gas", "amt+1", "amt-1", "noop", "false", "falsemoved", "retempty", "retbad", "ret2", "approval", "approvalfirst", "approval1", "approval4", "notopics", "otherlog", "credit"}
 )
 
 func (s *e20Suite) pickDev(kind string, num, den int) Dev {
@@ -1120,6 +1120,75 @@ func (s *e20Suite) opTx() {
 	s.doTx(c, holder, call, to, amt, s.pickDev("tx", 1, 8))
 }
 
+// opTxBatch: ONE transaction in which the holder makes several token calls (a batch payout, a router): the calls run one
+// after the other, then the hook sees the whole receipt. Scripted side only (honest script, no deviation).
+func (s *e20Suite) opTxBatch() {
+	r := s.r
+	p, ok := s.pickPair(0)
+	var c common.Address
+	if ok && r.Intn(10) != 0 {
+		c = p.GetERC20Contract()
+	} else {
+		c = s.tokens[r.Intn(nTokens)]
+	}
+	holder := s.user()
+	for i := 0; i < 4 && s.tok.Bal(s.w.Ctx, c, common.BytesToAddress(holder)).Sign() == 0; i++ {
+		holder = s.user()
+	}
+	bal := sdkmath.NewIntFromBigInt(s.tok.Bal(s.w.Ctx, c, common.BytesToAddress(holder)))
+	n := 2 + r.Intn(2)
+	type call struct {
+		kind string
+		to   []byte
+		amt  sdkmath.Int
+	}
+	var calls []call
+	var toks []string
+	left := bal
+	for i := 0; i < n; i++ {
+		amt := s.amountUpTo(left.QuoRaw(int64(n - i)))
+		if amt.IsNegative() {
+			amt = sdkmath.ZeroInt()
+		}
+		if r.Intn(12) == 0 {
+			amt = left.AddRaw(1) // one call of the batch overdraws: the whole transaction reverts
+		}
+		cl := call{kind: "xfer", to: s.mod, amt: amt}
+		switch r.Intn(8) {
+		case 0:
+			cl.to = s.user()
+		case 1:
+			cl.kind = "burn"
+			cl.to = make([]byte, 20)
+		}
+		calls = append(calls, cl)
+		if cl.kind == "burn" {
+			toks = append(toks, "burn:"+amt.String())
+		} else {
+			toks = append(toks, "xfer:"+s.alias(cl.to)+":"+amt.String())
+		}
+		if left.GTE(amt) {
+			left = left.Sub(amt)
+		}
+	}
+	s.tok.Reset(Dev{})
+	pre := s.observe()
+	side := s.tok.(*scriptSide)
+	out := s.w.Deliver(func(ctx sdk.Context) error {
+		var logs []*ethtypes.Log
+		for _, cl := range calls {
+			l, rev := side.HolderCall(ctx, c, common.BytesToAddress(holder), cl.kind, common.BytesToAddress(cl.to), cl.amt.BigInt())
+			if rev {
+				return fmt.Errorf("execution reverted")
+			}
+			logs = append(logs, l...)
+		}
+		msg := ethtypes.NewMessage(common.BytesToAddress(holder), &c, 0, big.NewInt(0), 100000, big.NewInt(0), big.NewInt(0), big.NewInt(0), nil, nil, false)
+		return s.k.Hooks().PostTxProcessing(ctx, msg, &ethtypes.Receipt{Logs: logs})
+	})
+	s.emit("txb", fmt.Sprintf("c=%s holder=%s calls=%s", s.alias(c.Bytes()), s.alias(holder), strings.Join(toks, ",")), Dev{}, out, "", pre)
+}
+
 func (s *e20Suite) doTx(c common.Address, holder sdk.AccAddress, call string, to []byte, amt sdkmath.Int, dev Dev) {
 	s.tok.Reset(dev)
 	pre := s.observe()
@@ -1435,7 +1504,11 @@ func runErc20(seed uint64, nOps int, outPath string, honest bool, realFrom int) 
 					s.opHook()
 				}
 			case k < 89:
-				s.opTx()
+				if !s.real && s.r.Intn(3) == 0 {
+					s.opTxBatch()
+				} else {
+					s.opTx()
+				}
 			case k < 92:
 				s.opSend()
 			case k < 95:
